@@ -27,6 +27,9 @@ func parseClampedInt(in string, defaultValue, min, max int64) (int64, error) {
 	return v, nil
 }
 
+// readAllPreallocLimit is the largest declared size ReadAll allocates in one go.
+const readAllPreallocLimit = 64 << 20
+
 // ReadAll is a fakeS3-centric replacement for ioutil.ReadAll(), for use when
 // the size of the result is known ahead of time. It is considerably faster to
 // preallocate the entire slice than to allow growslice to be triggered
@@ -36,8 +39,24 @@ func parseClampedInt(in string, defaultValue, min, max int64) (int64, error) {
 // ErrIncompleteBody.
 func ReadAll(r io.Reader, size int64) (b []byte, err error) {
 	var n int
-	b = make([]byte, size)
-	n, err = io.ReadFull(r, b)
+	if size < 0 {
+		return nil, ErrIncompleteBody
+	}
+	if size > readAllPreallocLimit {
+		// The size is whatever the client declared: do not allocate it up front
+		// (a Content-Length of a terabyte must not take the process down), let
+		// the buffer grow with what is actually received instead.
+		b, err = ioutil.ReadAll(io.LimitReader(r, size))
+		if err != nil {
+			return nil, err
+		} else if int64(len(b)) != size {
+			return nil, ErrIncompleteBody
+		}
+		n = len(b)
+	} else {
+		b = make([]byte, size)
+		n, err = io.ReadFull(r, b)
+	}
 	if err == io.ErrUnexpectedEOF {
 		return nil, ErrIncompleteBody
 	} else if err != nil {
